@@ -22,6 +22,9 @@ Streams
            media files with `|media|` (links and images), to their own assets, to the rest of the
            documentation with `|url|`.  Oracle: every such link resolves to the intended file AND that file
            exists with the content of its source; the navigation bar of every page leads to the top page.
+  round 5: links are written in many Markdown contexts (list items, indented continuation paragraphs, nested
+           lists, tabs, quotes, headings); entries of the page directory may be symbolic links (outside target /
+           sibling / nothing; the page directory itself); `AliasPreprocessor.run` vs the Lean text-level model.
   e2e    : a few complete `ford.main` runs (page dir handling inside main / Documentation),
            project-level copy_subdir and absolute project_url probes; oracle only.
 """
@@ -75,6 +78,32 @@ USER_ALIASES = ["docs = https://example.org/docs", "media = https://example.org/
                 "url = https://example.org", "Media = x"]
 DEFAULT_CFG = {"media_dir": None, "media_files": [], "output_dir": "doc", "alias": []}
 
+# where in the Markdown text of a page a link is written (round 5).  Every one of these is rendered as a link by
+# Python-Markdown; `{L}` is the link (or image).  An alias is documented to work anywhere in the text, so the
+# oracle expects the same target whatever the surrounding block is.
+LINK_CONTEXTS = OrderedDict([
+    ("para", "{L}"),
+    ("indent3", "   text indented by three blanks {L}"),
+    ("li", "- item {L}"),
+    ("li-cont", "- item\n\n    continuation paragraph of the item {L}"),
+    ("li-cont-tab", "- item\n\n\tcontinuation paragraph after a tab {L}"),
+    ("li-nested", "- outer\n    - inner {L}"),
+    ("li-nested-tab", "- outer\n\t- inner {L}"),
+    ("li-deep", "- a\n    - b\n        - c {L}"),
+    ("ol-cont", "1. first\n\n    more about the first {L}\n\n2. second"),
+    ("quote", "> quoted {L}"),
+    ("quote-li", "> - quoted item {L}"),
+    ("heading", "### Heading {L}"),
+    ("emph", "*see {L} here*"),
+    ("after-text", "Some words, then (see {L}), and more words."),
+    # {T} = the text part of the link (`[l0]` / `![l0]`), {U} = its destination, {I} = its number
+    ("angle", "{T}(<{U}>)"),
+    ("titled", "{T}({U} \"a title\")"),
+    ("reference", "see {T}[ref{I}] in the text\n\n[ref{I}]: {U}"),
+    ("reference-indented", "- item with {T}[ref{I}]\n\n   [ref{I}]: {U}"),
+])
+INDENTED_CONTEXTS = {"li-cont", "li-cont-tab", "li-nested", "li-nested-tab", "li-deep", "ol-cont"}
+
 
 def media_bytes(rel):
     return b"media " + rel.encode() + b"\n\x89PNG\xff\x00\x81\n"
@@ -82,7 +111,7 @@ def media_bytes(rel):
 
 def cfg_ok(cfg):
     md, od = cfg["media_dir"], cfg["output_dir"]
-    tops = {"src", "pages"}
+    tops = {"src", "pages", "pages.real", "linked"}
     if od.split("/")[0] in tops:
         return False
     if md is None:
@@ -428,6 +457,8 @@ def spec_tree(ch, loc=(), enc=UTF8):
         if is_hidden(n):
             continue
         e = find_file(ch, n)
+        if e.get("link") == "dangling":
+            continue  # a link to nothing is neither a file nor a directory
         if e["k"] == "D":
             sub = spec_tree(e["ch"], loc + (n,), enc)
             if sub is not None:
@@ -496,9 +527,125 @@ def add_links(rng, ch, feat, top_spec, loc=(), cfg=DEFAULT_CFG):
             else:
                 m["links"].append(("", rng.choice(["https://example.org/x", "#top", "mailto:a@b.c"])))
                 feat.add("link-external")
+        if m["links"] and rng.random() < 0.45:
+            # where the links are written: list items, continuation paragraphs, nested lists, quotes, ...
+            m["ctx"] = [rng.choice(list(LINK_CONTEXTS)) if rng.random() < 0.7 else "para" for _ in m["links"]]
+            for (a, _), c in zip(m["links"], m["ctx"]):
+                if c != "para":
+                    feat.add("link-context-" + c)
+                if c in INDENTED_CONTEXTS and a:
+                    feat.add("alias-on-indented-line")
         if rng.random() < 0.15:
             m["entity"] = True
             feat.add("link-entity")
+
+
+# ---- symbolic links inside the page directory (round 5) ----
+# An entry of the page directory may be a symbolic link: `pages/changelog.md -> ../CHANGELOG.md`, a shared asset,
+# a documentation folder kept elsewhere, or a second name for a sibling.  os.listdir / exists / is_dir / read_text /
+# copy all follow links, so the page directory "is" what it looks like through the links: an entry carries its
+# logical content (meta / children) and `link` says how it is put on disk:
+#   "out" / "out-abs"  the content lives outside the page directory (<root>/linked/...), relative / absolute target
+#   "sib:<name>"       a link to the sibling entry <name> of the same directory (same content)
+#   "dangling"         a link to nothing: not a file, not a directory - nothing is expected of it
+SIB_MD_STEMS = ["changelog", "news", "alias1", "copyof"]
+SIB_OTHER = ["logo2.txt", "shared.dat"]
+SIB_DIRS = ["theory", "mirror", "again"]
+DANGLING_NAMES = ["broken.md", "lost.md", "ghost", "ghost.txt"]
+ALLOW_DANGLING = [True]  # a dangling link aborts the run of a FORD that still raises on a missing entry
+
+
+def _is_sib(e):
+    return (e.get("link") or "").startswith("sib:")
+
+
+def sync_sibs(ch):
+    """give every `sib:` entry the content of the sibling it points to; False when a target is gone"""
+    import copy
+
+    for e in ch:
+        if e["k"] == "D" and not _is_sib(e):
+            if not sync_sibs(e["ch"]):
+                return False
+    for e in ch:
+        if _is_sib(e):
+            t = find_file(ch, e["link"][4:])
+            if t is None or t is e or t["k"] != e["k"] or (t.get("link") or "").startswith(("sib:", "dangling")):
+                return False
+            if e["k"] == "D":
+                e["ch"] = copy.deepcopy(t["ch"])
+            else:
+                e["meta"] = copy.deepcopy(t["meta"])
+                e["style"] = t.get("style", 0)
+    return True
+
+
+def unlink_entry(c, i):
+    """(shrinker) make entry i of directory c a regular file / directory again; False if that is not possible"""
+    e = c[i]
+    if e.get("link") == "dangling":
+        return False
+    e.pop("link", None)
+    return True
+
+
+def has_links(ch):
+    return any(e.get("link") or (e["k"] == "D" and has_links(e["ch"])) for e in ch)
+
+
+def links_in(ch, prefix=""):
+    out = {}
+    for e in ch:
+        if e.get("link"):
+            out[prefix + e["name"]] = e["link"]
+        if e["k"] == "D":
+            out.update(links_in(e["ch"], prefix + e["name"] + "/"))
+    return out
+
+
+def add_symlinks(rng, ch, feat, p_entry, depth=0):
+    used = {e["name"] for e in ch}
+    for e in list(ch):
+        if e["k"] == "D":
+            add_symlinks(rng, e["ch"], feat, p_entry, depth + 1)
+        if rng.random() < p_entry:
+            e["link"] = "out" if rng.random() < 0.75 else "out-abs"
+            kind = "dir" if e["k"] == "D" else ("page" if is_md(e["name"]) else "file")
+            if e["name"] == "index.md":
+                kind = "index"
+            feat.add("symlink-outside-" + kind)
+            if depth:
+                feat.add("symlink-below-top")
+    if rng.random() < 2 * p_entry:
+        cands = [e for e in ch if e["name"] != "index.md" and not is_hidden(e["name"])
+                 and not (e["k"] == "D" and count_files(e["ch"]) > 6)]
+        if cands:
+            t = rng.choice(cands)
+            pool = SIB_DIRS if t["k"] == "D" else ([x + ".md" for x in SIB_MD_STEMS] if is_md(t["name"]) else SIB_OTHER)
+            free = [n for n in pool if n not in used]
+            if free:
+                n = rng.choice(free)
+                used.add(n)
+                ne = {"k": t["k"], "name": n, "link": "sib:" + t["name"]}
+                if t["k"] == "D":
+                    ne["ch"] = []
+                else:
+                    ne.update(meta=None, style=0)
+                ch.insert(rng.randrange(len(ch) + 1), ne)
+                feat.add("symlink-to-sibling-" + ("dir" if t["k"] == "D" else ("page" if is_md(n) else "file")))
+    if ALLOW_DANGLING[0] and rng.random() < p_entry:
+        free = [n for n in DANGLING_NAMES if n not in used]
+        if free:
+            ch.append({"k": "F", "name": rng.choice(free), "meta": None, "style": 0, "link": "dangling"})
+            feat.add("symlink-dangling")
+
+
+def count_files(ch):
+    return sum(1 + (count_files(e["ch"]) if e["k"] == "D" else 0) for e in ch)
+
+
+def page_dir_is_link(ch):
+    return any(e.get("top_link") for e in ch)
 
 
 def gen_tree(rng, k, feat, cfgs=(DEFAULT_CFG,)):
@@ -517,6 +664,17 @@ def gen_tree(rng, k, feat, cfgs=(DEFAULT_CFG,)):
     deeper = all_dir_names(ch, set())
     decorate(rng, ch, feat, deeper, p_dangling=0.02, enc=enc)
     add_links(rng, ch, feat, spec_tree(ch, enc=enc), cfg=cfgs[ci])
+    if rng.random() < 0.3:
+        add_symlinks(rng, ch, feat, p_entry=rng.choice([0.08, 0.2, 0.4]))
+        if not sync_sibs(ch):
+            raise AssertionError("generator: sibling link without target")
+        if has_links(ch):
+            feat.add("symlinks-in-page-dir")
+    if rng.random() < 0.08:
+        for e in ch:
+            if e["name"] == "index.md":
+                e["top_link"] = True
+                feat.add("page-dir-is-a-symlink")
     return ch, enc, ci
 
 
@@ -540,9 +698,7 @@ def md_text(e):
         lines = lines + meta_extra
     body = ["BODYSTART", ""]
     if m["links"]:
-        body.append(" ".join(f"{'!' if is_image(r) else ''}[l{i}]({('|' + a + '|') if a else ''}{r})"
-                             for i, (a, r) in enumerate(m["links"])))
-        body.append("")
+        body += link_blocks(m)
     body += ["BODYEND", ""]
     if m.get("na"):
         body += [f"NASTART {m['na']} NAEND", ""]
@@ -559,26 +715,85 @@ def md_text(e):
     return "\n".join(head + body)
 
 
+def link_text(i, a, r):
+    return f"{'!' if is_image(r) else ''}[l{i}]({('|' + a + '|') if a else ''}{r})"
+
+
+def link_ctx(m, i):
+    c = (m.get("ctx") or [])
+    return c[i] if i < len(c) and c[i] in LINK_CONTEXTS else "para"
+
+
+def link_blocks(m):
+    """the lines of the body that hold the links, in the order of `m["links"]`: consecutive links of a plain
+    paragraph share one line (as before round 5), every other link is a block of its own, blocks are separated
+    by a plain paragraph so that every list / quote ends before the next block begins"""
+    out, para = [], []
+
+    def flush():
+        if para:
+            out.extend([" ".join(para), ""])
+            para.clear()
+
+    for i, (a, r) in enumerate(m["links"]):
+        c = link_ctx(m, i)
+        if c == "para":
+            para.append(link_text(i, a, r))
+            continue
+        flush()
+        full = link_text(i, a, r)
+        text, dest = full[:full.index("]") + 1], full[full.index("](") + 2:-1]
+        out.extend(LINK_CONTEXTS[c].replace("{L}", full).replace("{T}", text).replace("{U}", dest)
+                   .replace("{I}", str(i)).split("\n"))
+        out.extend(["", "separator.", ""])
+    flush()
+    return out
+
+
 def other_bytes(name):
     """content of a non-page file: not text in any particular encoding"""
     return b"content of " + name.encode() + b"\n\xff\xe9\x00\x81\n"
 
 
-def write_tree(root: Path, ch):
+def write_tree(root: Path, ch, ext=None, state=None, force_abs=False):
+    """`root` must be a real directory (no link above it); link targets outside the page directory go to `ext`
+    (default <root>/../linked, emptied first)"""
+    if ext is None:
+        ext = root.parent / "linked"
+        shutil.rmtree(ext, ignore_errors=True)
+    if state is None:
+        state = [0]
     root.mkdir(parents=True, exist_ok=True)
     for e in ch:
         p = root / e["name"]
+        lk = e.get("link") or ""
+        if lk == "dangling":
+            os.symlink("nowhere/" + e["name"], p)
+            continue
+        if lk.startswith("sib:"):
+            os.symlink(lk[4:], p)  # the content is the sibling's
+            continue
+        dest = p
+        if lk in ("out", "out-abs"):
+            state[0] += 1
+            # the target has its own name (pages/changelog.md -> ../CHANGELOG.md): what counts is the link's name
+            dest = ext / f"t{state[0]}" / (e["name"] if state[0] % 2 else "TARGET_" + e["name"].upper() + ".orig")
+            dest.parent.mkdir(parents=True, exist_ok=True)
+            os.symlink(str(dest) if (force_abs or lk == "out-abs") else os.path.relpath(dest, root), p)
         if e["k"] == "D":
-            write_tree(p, e["ch"])
+            write_tree(dest, e["ch"], ext, state, force_abs or bool(lk))
         elif e["meta"] is not None:
-            p.write_bytes(md_text(e).encode(e["meta"].get("wenc") or "ascii"))
+            dest.write_bytes(md_text(e).encode(e["meta"].get("wenc") or "ascii"))
         else:
-            p.write_bytes(other_bytes(e["name"]))
+            dest.write_bytes(other_bytes(e["name"]))
 
 
 def tokens(ch):
+    """the directory as it looks through its links (a link to nothing is no entry at all)"""
     out = []
     for e in ch:
+        if e.get("link") == "dangling":
+            continue
         if e["k"] == "D":
             out.append("D" + US + e["name"])
             out += tokens(e["ch"])
@@ -667,15 +882,26 @@ class Impl:
         src = getattr(n, "_c17_src", None)
         if src is None:  # (a node that was not made through ford.pagetree.PageNode)
             return os.path.normpath(os.path.join(str(n.location), str(n.filename) + ".md"))
-        return os.path.relpath(os.path.realpath(src), os.path.realpath(self.page_dir))
+        # (lexically: the page belongs to the NAME in the page directory, also when that name is a link)
+        return os.path.relpath(os.path.abspath(src), os.path.abspath(self.page_dir))
 
     def run(self, ch, enc=UTF8):
         """get_page_tree (with the project's encoding `enc`, the way ford.main calls it) +
         PagetreePage.writeout for every node; returns the observation"""
-        shutil.rmtree(self.pages, ignore_errors=True)
+        real = self.root / "pages.real"
+        for p in (self.pages, real):
+            if p.is_symlink():
+                p.unlink()
+            else:
+                shutil.rmtree(p, ignore_errors=True)
         shutil.rmtree(self.out / "page", ignore_errors=True)
         (self.out / "page").mkdir(parents=True)
-        write_tree(self.pages, ch)
+        if page_dir_is_link(ch):
+            # the page directory itself is reached through a link
+            write_tree(real, ch)
+            os.symlink("pages.real", self.pages)
+        else:
+            write_tree(self.pages, ch)
         obs = {"status": "ok", "nodes": [], "pages": {}, "out": [], "log": ""}
         import ford.sourceform as sf
 
@@ -1043,9 +1269,11 @@ def oracle(ch, im, src_root: Path, out: Path, enc=UTF8, cfg=DEFAULT_CFG):
             s = src_root.joinpath(*n["loc"], item)
             if "/" in item or not s.is_dir():
                 continue
-            for dp, dn, fn in os.walk(s):
+            for dp, dn, fn in os.walk(s, followlinks=True):
                 for x in fn:
                     sp = Path(dp) / x
+                    if not sp.exists():
+                        continue  # a link to nothing cannot be copied
                     dpth = out.joinpath("page", *n["loc"]) / sp.relative_to(src_root.joinpath(*n["loc"]))
                     if not dpth.is_file() or dpth.read_bytes() != sp.read_bytes():
                         fails.append((f"copy_subdir {item} of {n['path']}: {sp.relative_to(src_root)} not copied", None))
@@ -1135,6 +1363,47 @@ def micro(ford, drv, rng, n, rep):
     return len(reqs), bad
 
 
+ALIAS_ALPHA = ["|", "|", "\\", " ", " ", "\t", "a", "b", "page", "url", "media", "x y", "/", "-", "(", ")", "é", "||", "\\|", "| "]
+LINE_PREFIXES = ["", "", " ", "   ", "    ", "\t", "        ", "    - ", "\t- ", "> ", "1.  ", "    > ", "\t\t", "  \t"]
+
+
+def micro_alias(ford, drv, rng, n, rep):
+    """`AliasPreprocessor.run` (the real method, on the real class) against the Lean `aliasRun`, exact, on
+    random line lists: pipes, backslashes, blanks, tabs, alias names (known / unknown / with blanks), every kind
+    of line start (indented by blanks or tabs, list markers, quotes)"""
+    import ford._markdown as M
+
+    reqs, exp = [], []
+    for _ in range(n):
+        al = {"page": "/o/page", "url": "/o", "media": "/o/media"}
+        if rng.random() < 0.3:
+            al[rng.choice(["a", "x y", "b|", "é", "a b c"])] = rng.choice(["V", "", "|page|", "\\|u|", "w w"])
+        lines = []
+        for _ in range(rng.randint(1, 4)):
+            if rng.random() < 0.5:
+                body = "".join(rng.choice(ALIAS_ALPHA) for _ in range(rng.randint(0, 9)))
+            else:
+                body = "".join(rng.choice(["[l](|page|/a.html)", "|media|/x.png", "\\|url|", "see |url|/i.html", "|nope|",
+                                           " and ", "|page||", "||", "| page |"]) for _ in range(rng.randint(1, 3)))
+            lines.append(rng.choice(LINE_PREFIXES) + body)
+        proc = M.AliasPreprocessor.__new__(M.AliasPreprocessor)
+        proc.aliases = dict(al)
+        try:
+            got = proc.run(list(lines))
+        except Exception as e:  # noqa
+            rep.tie_broken(f"micro/alias: AliasPreprocessor.run raised {type(e).__name__}: {e} on {lines!r}")
+            continue
+        reqs.append(["c17.alias", RS.join(k + GS + v for k, v in al.items()), *lines])
+        exp.append(["ok", *got])
+    bad = 0
+    for r, e, g in zip(reqs, exp, drv.batch(reqs)):
+        if e != g:
+            bad += 1
+            rep.tie_broken(f"correspondence micro/alias: AliasPreprocessor.run gives {e[1:]!r}, model {g[1:]!r} on lines {r[2:]!r}",
+                           {"stream": "micro-alias", "request": r, "impl": e, "model": g})
+    return len(reqs), bad
+
+
 # --------------------------------------------------------------------------
 # variants: which code is this?
 # --------------------------------------------------------------------------
@@ -1196,6 +1465,8 @@ def pages_dict(ch, prefix=""):
             out.update(pages_dict(e["ch"], prefix + e["name"] + "/"))
             if not e["ch"]:
                 pass
+        elif e.get("link") == "dangling":
+            out[prefix + e["name"]] = "(symbolic link to nothing)"
         elif e["meta"] is not None:
             out[prefix + e["name"]] = md_text(e)
         else:
@@ -1383,6 +1654,15 @@ def shrink(ch, still_fails, budget=300):
                     yield ("clear", key)
             if e["meta"].get("wenc") and (e["meta"]["title"] is None or e["meta"]["title"].isascii()):
                 yield ("ascii", None)
+            if any(c != "para" for c in (e["meta"].get("ctx") or [])):
+                yield ("plainctx", None)
+            if len(e["meta"]["links"]) > 1:
+                for j in range(len(e["meta"]["links"])):
+                    yield ("droplink", j)
+        if e.get("link"):
+            yield ("unlink", None)
+        if e.get("top_link"):
+            yield ("untoplink", None)
 
     progress = True
     while progress and budget > 0:
@@ -1404,9 +1684,25 @@ def shrink(ch, still_fails, budget=300):
                     elif what == "ascii":
                         c2[i]["meta"]["wenc"] = ""
                         c2[i]["meta"]["na"] = None
+                    elif what == "plainctx":
+                        c2[i]["meta"]["ctx"] = []
+                    elif what == "droplink":
+                        if key >= len(c2[i]["meta"]["links"]):
+                            continue
+                        ctx = [link_ctx(c2[i]["meta"], j) for j in range(len(c2[i]["meta"]["links"]))]
+                        del c2[i]["meta"]["links"][key]
+                        del ctx[key]
+                        c2[i]["meta"]["ctx"] = ctx
+                    elif what == "unlink":
+                        if not unlink_entry(c2, i):
+                            continue
+                    elif what == "untoplink":
+                        c2[i].pop("top_link", None)
                     else:
                         c2[i]["meta"][key] = []
                     budget -= 1
+                    if not sync_sibs(cand):
+                        continue  # (the target of a sibling link would be gone)
                     if still_fails(cand):
                         cur = cand
                         progress = True
@@ -1442,6 +1738,8 @@ def run(tier: str, seed: int, replay: str | None = None) -> int:
     n_e2e = 12 if tier == "quick" else 150
     n_cfg = 6 if tier == "quick" else 14
     ev_micro, bad_micro = micro(ford, drv, rng, n_micro, rep)
+    ev_alias, bad_alias = micro_alias(ford, drv, random.Random(seed * 31337 + 9), 2500 if tier == "quick" else 40000, rep)
+    ev_micro, bad_micro = ev_micro + ev_alias, bad_micro + bad_alias
 
     feats_hist: dict[str, int] = {}
     depth_hist: dict[str, int] = {}
@@ -1474,6 +1772,7 @@ def run(tier: str, seed: int, replay: str | None = None) -> int:
         impls = [Impl(ford, d / f"proj{i}", cfg) for i, cfg in enumerate(cfgs)]
         impl = impls[0]
         variant = decide_variant(impl)
+        ALLOW_DANGLING[0] = variant.endswith("skips")
         cwd = os.getcwd()
         media_model = drv.batch([["c17.media", "1" if c["media_dir"] is not None else "0",
                                   *tokens(media_entries(c["media_files"]))] for c in cfgs])
@@ -1569,6 +1868,8 @@ def run(tier: str, seed: int, replay: str | None = None) -> int:
                                    "project_options": cfg_options(cfgs[ci]),
                                    "files": pages_dict(case_tree),
                                    "files_written_in": written_in(case_tree),
+                                   "symbolic_links": links_in(case_tree),
+                                   "page_dir_is_a_symbolic_link": page_dir_is_link(case_tree),
                                    "why": [f[0] for f in fails][:6],
                                    "defect_classes_in_input": {k2: v for k2, v in defect_classes(case_tree, enc).items()},
                                    "expected_pages": [n["path"] for n in spec_preorder(spec_tree(case_tree, enc=enc))] if spec_tree(case_tree, enc=enc) else None,
@@ -1593,6 +1894,7 @@ def run(tier: str, seed: int, replay: str | None = None) -> int:
         status_histogram=status_hist,
         e2e_runs=n_e2e,
         multiplicity=mult,
+        alias_line_lists_compared=ev_alias,
         project_configurations=cfgs,
         probes=probe_results,
         generated_tables=_tables(tr),
@@ -1602,7 +1904,12 @@ def run(tier: str, seed: int, replay: str | None = None) -> int:
         "codecs are on the implementation side only; the model knows `pure ASCII` / `written in encoding e` per file and "
         "treats reading a non-ASCII file with another encoding as an error (generated: only bytes that are invalid UTF-8 "
         "read as UTF-8, where that is exact); encodings are ASCII-compatible ones",
-        "os.path.relpath / Path.resolve are modelled on normalised segment lists (no symlinks inside the page directory)",
+        "os.path.relpath / Path.resolve are modelled on normalised segment lists; symbolic links in the page directory "
+        "(to files, assets and directories kept outside it, to siblings, to nothing, and the page directory itself) are "
+        "generated on the implementation side, the model is given the directory as it looks through its links "
+        "(os.listdir / exists / is_dir / read_text / copy follow links); no link cycles",
+        "the text-level alias model (PageAlias.lean) is compared with AliasPreprocessor.run on random lines over pipes, "
+        "backslashes, blanks, tabs, alias names and line starts; lines contain no newline / carriage return",
         "ordered_subpage / copy_subdir items are plain names (no '/' or '..'; C19 covers escaping paths); "
         "copy_subdir on a non-index page only names directories that do not become pages",
         "file contents of copied assets are compared on the implementation side only",
